@@ -6,7 +6,7 @@ def activationsComplete : Bool := true
 
 def activations : Activations :=
   { pegnet := 206421, gradingV2 := 210330, txConv := 213237, pegPricing := 214287, oneWayFCT := 220346, convLimit := 222270,
-    pegFloat := 222270, rcde := 231260, v4 := 231620, v20 := 258796, devRewards := 260118, sprSig := 260118, oneWaySmall := 274036,
+    pegFloat := 222270, rcde := 231620, v4 := 231620, v20 := 258796, devRewards := 260118, sprSig := 260118, oneWaySmall := 274036,
     v202 := 274036, v204 := 288878, v204Burn := 294206, pip10 := 295190 }
 
 def setAllActivationsCovers : List String := ["PegnetActivation", "GradingV2Activation", "TransactionConversionActivation", "PEGPricingActivation", "OneWaypFCTConversions", "PegnetConversionLimitActivation", "PEGFreeFloatingPriceActivation", "fat2.Fat2RCDEActivation", "V4OPRUpdate", "V20HeightActivation", "V20DevRewardsHeightActivation", "OneWaySmallAssetsConversions", "SprSignatureActivation", "V202EnhanceActivation", "V204EnhanceActivation", "V204BurnMintedTokenActivation", "PIP10AverageActivation"]
